@@ -3,7 +3,7 @@
    every sequence of API, scheduler and transport ops; the asyncio transport and the kernel are the environment
    (arbitrary op sequences / arbitrary oracle scripts; contracts appear as explicit hypotheses).
    This file contains only statements closed by `exact` and their Print Assumptions. *)
-From AV Require Import Base SockProto SockProtoProofs SockProtoThms SockProtoLive UnixLoop UnixLoopProofs.
+From AV Require Import Base SockProto SockProtoProofs SockProtoThms SockProtoLive UnixLoop UnixLoopProofs UnixLoopCloseProofs.
 
 (* stepv p: p = false is HEAD, p = true the pinned tree before commit ab750b3; r0 = initial reading flag *)
 
@@ -235,3 +235,73 @@ Theorem C18_unix_send_eof_unguarded_refuted :
     u_intr o' = [UBusy] /\ u_shut o' = false.
 Proof. exact unix_send_eof_unguarded_refuted. Qed.
 Print Assumptions C18_unix_send_eof_unguarded_refuted.
+
+(* finding F34 (fixed, commit d2d2221): a send() that returns normally was never released by connection_lost *)
+Theorem C18_send_returns_ok_only_if_not_lost : forall r0 s t pw s',
+  reachv false r0 s -> is_send (phase_of s t) = true -> stepv false s (Resume t pw) = (s', RDone) ->
+  closed s = false /\ exc s = None /\
+  (forall ev f, phase_of s t = SendWait ev f -> f = FSet /\ wval s ev = true).
+Proof. exact send_returns_ok_only_if_not_lost. Qed.
+Print Assumptions C18_send_returns_ok_only_if_not_lost.
+
+Theorem C18_send_ok_never_released_by_connection_lost : forall r0 ops t pw,
+  let s := final step (init r0) ops in
+  is_send (phase_of s t) = true -> snd (step s (Resume t pw)) = RDone ->
+  (g_lostclean s = true -> closed s = true) ->
+  forall e, ~ In (ConnectionLost e) ops.
+Proof. exact send_ok_never_released_by_connection_lost. Qed.
+Print Assumptions C18_send_ok_never_released_by_connection_lost.
+
+Theorem C18_send_returns_ok_only_if_not_lost_refuted_pinned :
+  (exists ops t, let s := final (stepv true) (init false) ops in
+     snd (stepv true s (Resume t false)) = RDone /\ exc s <> None /\
+     snd (stepv false (final step (init false) ops) (Resume t false)) = RBroken) /\
+  (exists ops t, let s := final (stepv true) (init false) ops in
+     snd (stepv true s (Resume t false)) = RDone /\ closed s = true /\
+     snd (stepv false (final step (init false) ops) (Resume t false)) = RClosed).
+Proof. exact send_returns_ok_only_if_not_lost_refuted_pinned. Qed.
+Print Assumptions C18_send_returns_ok_only_if_not_lost_refuted_pinned.
+
+(* finding F33 (fixed, commit e49bd95): aclose() of a UNIX stream while calls are parked; cstep false = HEAD order
+   (unregister, then close), defer = uvloop-like deferred close / selector loop *)
+Theorem C18_unix_closed_socket_not_registered : forall defer s,
+  creach defer s ->
+  (c_sclosed s = true -> c_regr s = false /\ c_regw s = false /\ c_fdopen s = false /\ c_nclose s = 1) /\
+  c_nclose s <= 1 /\ c_cwr s = false /\ c_errs s = 0 /\ c_closing s = c_sclosed s.
+Proof. exact unix_closed_socket_not_registered. Qed.
+Print Assumptions C18_unix_closed_socket_not_registered.
+
+Theorem C18_unix_close_ends_parked_calls : forall defer s d a,
+  creach defer s -> c_closing s = true ->
+  ph s d <> CParked /\
+  (ph s d = CRun false -> cb s d = false ->
+     snd (cstep false defer s (CStep d a)) = CEnd UClosed /\
+     ph (fst (cstep false defer s (CStep d a))) d = CIdle).
+Proof. exact unix_close_ends_parked_calls. Qed.
+Print Assumptions C18_unix_close_ends_parked_calls.
+
+Theorem C18_unix_close_with_both_parked : forall defer s a b,
+  creach defer s -> c_phr s = CParked -> c_phs s = CParked ->
+  let s1 := final (cstep false defer) s [CClose; CCallback DR; CCallback DS] in
+  snd (cstep false defer s1 (CStep DR a)) = CEnd UClosed /\
+  snd (cstep false defer (fst (cstep false defer s1 (CStep DR a))) (CStep DS b)) = CEnd UClosed /\
+  snd (cstep false defer s1 (CStep DS b)) = CEnd UClosed /\
+  c_nclose s1 = 1 /\ c_fdopen s1 = false /\ c_regr s1 = false /\ c_regw s1 = false /\ c_errs s1 = 0.
+Proof. exact unix_close_with_both_parked. Qed.
+Print Assumptions C18_unix_close_with_both_parked.
+
+Theorem C18_unix_close_while_registered_refuted_pinned :
+  (let s := final (cstep true true) cinit
+              [CBegin DR; CStep DR ABlock; CBegin DS; CStep DS ABlock; CClose;
+               CCallback DR; CStep DR ABlock; CCallback DS; CStep DS ABlock] in
+   c_closing s = true /\ c_phr s = CParked /\ c_phs s = CParked /\ c_fdopen s = true /\
+   c_cbr s = false /\ c_cbw s = false /\ c_cwr s = true) /\
+  (let s := final (cstep true false) cinit
+              [CBegin DR; CStep DR ABlock; CBegin DS; CStep DS ABlock; CClose; CCallback DR; CCallback DS] in
+   c_cwr s = true /\ c_errs s = 2 /\ c_regr s = true /\ c_regw s = true /\ c_sclosed s = true) /\
+  (let s := final (cstep false true) cinit
+              [CBegin DR; CStep DR ABlock; CBegin DS; CStep DS ABlock; CClose;
+               CCallback DR; CStep DR ABlock; CCallback DS; CStep DS ABlock] in
+   c_phr s = CIdle /\ c_phs s = CIdle /\ c_fdopen s = false /\ c_cwr s = false /\ c_errs s = 0).
+Proof. exact unix_close_while_registered_refuted_pinned. Qed.
+Print Assumptions C18_unix_close_while_registered_refuted_pinned.
